@@ -22,9 +22,48 @@ from harness.common import exc_name, jdump
 PID = "C02"
 TITLE = "Evaluation is lazy: demand-driven consumption and bounded buffering"
 LEAN_MODULES = ["LenaModel.Props.C02"]
-LEAN_SOURCES = ["LenaModel/Model/C02.lean", "LenaModel/Props/C02.lean"]
+LEAN_SOURCES = ["LenaModel/Model/C02.lean", "LenaModel/Lemmas/C02.lean", "LenaModel/Lemmas/C02Neg.lean",
+                "LenaModel/Lemmas/C02Split.lean", "LenaModel/Lemmas/C02Spec.lean", "LenaModel/Props/C02.lean"]
 DRIVER = "drivers/C02.lean"
 THEOREMS = [
+    # the property's main sentences
+    "Lena.C02.build_is_silent",
+    "Lena.C02.pipeline_lazy",
+    "Lena.C02.compose_pulls",
+    "Lena.C02.stage_produces",
+    "Lena.C02.seqFuelOK_exists",
+    "Lena.C02.take_produces",
+    "Lena.C02.take_feeds",
+    "Lena.C02.lazy_refines_list",
+    "Lena.C02.stage_refines_list",
+    "Lena.C02.pipeline_values",
+    "Lena.C02.slice_after_infinite_terminates",
+    # what the stage functions say about pulls
+    "Lena.C02.ofList_need",
+    "Lena.C02.map_pulls",
+    "Lena.C02.filter_pulls",
+    "Lena.C02.filter_pulls_source",
+    "Lena.C02.islice_pulls",
+    "Lena.C02.islice_end",
+    "Lena.C02.count_lookahead",
+    "Lena.C02.negslice_lag",
+    "Lena.C02.negSpec_fst",
+    "Lena.C02.split_block_bound",
+    "Lena.C02.splitSpecGo_block",
+    # bounded buffering
+    "Lena.C02.split_buffer_bound",
+    "Lena.C02.negslice_held_bound",
+    # the machines realise the stage functions
+    "Lena.C02.listSrc_produces",
+    "Lena.C02.fnSrc_feeds",
+    "Lena.C02.map_feeds",
+    "Lena.C02.filter_produces",
+    "Lena.C02.runIf_produces",
+    "Lena.C02.islice_feeds",
+    "Lena.C02.islice_produces",
+    "Lena.C02.count_produces",
+    "Lena.C02.neg_produces",
+    "Lena.C02.split_produces",
 ]
 CASE_TIMEOUT = 20
 
